@@ -60,6 +60,9 @@ ROWS = [
     ("C17", "fixed", "fix: decoding tags from cell data keeps tag names", "F18",
      "R1-subdomain-names-differ/meshio-formats/*",
      "tag names containing ':' (the library's gmsh loader produces 'gmsh:bounding_entities') were truncated at the first colon by _decode_cell_data"),
+    ("C17", "fixed", "fix: tags encoded as point data have one value", "F20",
+     "R1-save-raised/encode_point_data/Mesh*2",
+     "Mesh.save(encode_point_data=True) raised ValueError for second-order meshes: the indicator arrays had nvertices entries instead of one per point"),
     ("C18", "fixed", "fix: MeshQuad1.to_meshtri(style='x') numbers", "F16",
      "nested-child-in-no-old-cell/split/MeshQuad1",
      "to_meshtri(style='x') numbered the new midpoints max(t)+1.. although they are appended at p.shape[1]..: wrong on a mesh whose point array ends with unused vertices (a part returned by `@`)"),
